@@ -61,7 +61,7 @@ PROPS["C13"]["quick_runs"] = 320
 PROPS["C14"] = {
     "level": "fault_enumeration",
     "quick_runs": 240, "quick_budget_s": 150, "thorough_budget_s": 600,
-    "rule": "one run = one sampled world (store, provider personality, PKCE, refresh-token rotation, signing-key rotation) + one flow "
+    "rule": "one run = one sampled world (store, provider personality incl. the Keycloak flavour with JWT access tokens and 11 wrongly typed role-claim kinds, PKCE, refresh-token rotation, signing-key rotation) + one flow "
             "{login, login with profile lookup, bearer request, refresh, refresh with profile lookup, plain-OAuth2 login, plain re-validation} (profile flows: the "
             "ID token lacks a drawn non-empty subset of email / email_verified / groups / preferred_username); the flow's IdP-call sequence is "
             "recorded fault-free, then re-executed once for EVERY position x EVERY applicable response kind (11 transport kinds, 64 Byzantine token "
